@@ -193,6 +193,23 @@ def analyse(hist, rm: RM, outcome, cfg=None, want=None) -> Analysis:
                                 producer_tau=lu.tau, consumer=sid, tau=tau, q=q))
         return st
 
+    def new_demand(u, t_u, cause, q):
+        """A demand for a step of u at t_u becomes known.  If a consumer of u has already begun a
+        step at or after the time this step's output is due, that consumer was stepped too early
+        (C01, second formulation) - whether or not the run survives until u's step."""
+        known_before = t_u in dem[u]
+        dem[u].setdefault(t_u, []).append(cause)
+        if known_before:
+            return
+        for e in rm.outof[u]:
+            if e.v == u or not steps[e.v]:
+                continue
+            a = e.arr(t_u)
+            last = steps[e.v][-1]
+            if last.tau is not None and a <= last.tau:
+                A.add(V("C01", "feeder_demand_after_consumer_step", feeder=u, feeder_tau=t_u, arrives=a,
+                        cause=cause[0], consumer=e.v, consumer_tau=last.tau, conn=e.kind(), ci=e.ci, q=q))
+
     def expected_inputs(sid, st: Step):
         """RM due data (5.4) for this step; also marks event productions delivered."""
         tau = st.tau
@@ -359,7 +376,7 @@ def analyse(hist, rm: RM, outcome, cfg=None, want=None) -> Analysis:
                     st.q_end = q
                 if isinstance(ret, int) and not isinstance(ret, bool) and ret < until \
                         and st.tau is not None and ret > st.tau[0]:
-                    dem[sid].setdefault(rm.lift(sid, ret), []).append(("self", sid, st.idx))
+                    new_demand(sid, rm.lift(sid, ret), ("self", sid, st.idx), q)
             elif func == "get_data":
                 if st is None or st.q_end_step is None or st.q_end is not None:
                     A.bump("get_data_outside_step")
@@ -382,7 +399,7 @@ def analyse(hist, rm: RM, outcome, cfg=None, want=None) -> Analysis:
                         if e.trig:
                             a = e.arr(st.out_tau)
                             if a[0] < until:
-                                dem[e.v].setdefault(a, []).append(("trigger", sid, st.idx, e.id))
+                                new_demand(e.v, a, ("trigger", sid, st.idx, e.id), q)
         elif kind == "async_done":
             _, sid, what, qcall, res = r
             if what == "set_data":
